@@ -42,9 +42,12 @@ def jobs(tier):
     import sys
     import ctparse.ctparse  # noqa
     CC = sys.modules["ctparse.ctparse"]
-    out.append(Job("C06.NOTATIONS-API", "vq.harness.h_api2", "ob_clock", timeout=3600, path_timeout=300, env={"VQ_WIDE": "0" if tier == "quick" else "1"},
-                   bounds="{} hours x {} minutes x 3 reference times: every notation of the property text (24h, am/pm, Uhr, h, four-digit, o'clock, named hour + part of day, quarter/half) gives that hour and minute with latent_time off; bare clock time with latent_time on = first such time strictly after the reference minute".format(*((8, 4) if tier == "quick" else (24, 60))),
-                   functions=[fn_id(CC.ctparse)], stubs=["parser untraced; pool indices symbolic (solver covers every combination)"], site="ctparse"))
+    chunks = [(0, 24)] if tier == "quick" else [(0, 4), (4, 8), (8, 12), (12, 16), (16, 20), (20, 24)]
+    for lo, hi in chunks:
+        out.append(Job("C06.NOTATIONS-API[{}..{}]".format(lo, hi - 1), "vq.harness.h_api2", "ob_clock", timeout=3600, path_timeout=300,
+                       env={"VQ_WIDE": "0" if tier == "quick" else "1", "VQ_HLO": str(lo), "VQ_HHI": str(hi)},
+                       bounds=("8 hours x 4 minutes" if tier == "quick" else "hours {}..{} x 60 minutes".format(lo, hi - 1)) + " x 3 reference times: every notation of the property text (24h, am/pm, Uhr, h, four-digit, o'clock, named hour + part of day, quarter/half) gives that hour and minute with latent_time off; bare clock time with latent_time on = first such time strictly after the reference minute",
+                       functions=[fn_id(CC.ctparse)], stubs=["parser untraced; pool indices symbolic (solver covers every combination)"], site="ctparse"))
     return out
 
 
